@@ -113,3 +113,10 @@ func (g *Group) VerifPeek() (locked bool, members []string, ops int, max int, au
 	}
 	return
 }
+
+// VerifGetUnlocked looks a group up WITHOUT taking the registry lock (for
+// callbacks that run while other locks are held under the cooperative
+// scheduler, where only one thread runs at a time).
+func VerifGetUnlocked(name string) *Group {
+	return groups.groups[name]
+}
